@@ -7,7 +7,10 @@ Anchors (nothing here depends on a private name):
     called from the scan (today `FileFilter.is_excluded`).
 
 Events of the scan (found in every function reachable from the entry inside the scan's module):
-    descend   `<p>.iterdir()`, os.listdir(p), os.scandir(p)                      (rglob / os.walk: recursive, cannot be guarded -> undecided)
+    descend   `<p>.iterdir()`, os.listdir(p), os.scandir(p)
+              rglob / glob('**') / os.walk descend by themselves: every path taken from them must additionally be guarded by
+              `not ANC` = "no excluded directory above it" (component-wise pruning tests, see c08_recursive.py; a raw string-prefix
+              test is a VIOLATION); an entry `d / x` of such a directory inherits `not ANC` from `not ANC(d) and not EXCL(d)`
     read      open(p), p.open(), p.read_text(), p.read_bytes()
     parse     ast.parse(<text read from p>)
     register  something derived from p is added to a collection that the entry returns (append / add / extend / insert / += / d[k] = v)
@@ -46,6 +49,8 @@ from core.guards import FALSE, TRUE, Formula, atom, f_and, f_not, f_or, implies,
 from core.loader import AnalysisError, ClassInfo, FuncInfo, Repo, calls_in, norm, own_nodes, parent
 from core.report import Result
 
+from . import c08_recursive as rcs
+from .c08_recursive import ANC, RECL
 from .common import conds, is_attr_call, reachable_funcs, stmt_of, types_of, where
 
 EXCL, PY, ISDIR, ISFILE = atom("EXCL(path)"), atom("PY(path)"), atom("ISDIR(path)"), atom("ISFILE(path)")
@@ -151,7 +156,7 @@ def discover(repo: Repo) -> Anchors:
     parsing: list[FuncInfo] = []
     for fi in repo.all_functions():
         for c in calls_in(fi.node):
-            if is_attr_call(c, "iterdir") or lib_name(repo, fi, c) in ("os.listdir", "os.scandir", "os.walk") or (isinstance(c.func, ast.Attribute) and c.func.attr in ("rglob",)):
+            if is_attr_call(c, "iterdir") or lib_name(repo, fi, c) in ("os.listdir", "os.scandir", "os.walk") or (isinstance(c.func, ast.Attribute) and c.func.attr in ("rglob",)) or rcs.is_recursive_listing(repo, fi, c):
                 listing.append(fi)
             if lib_name(repo, fi, c) == "ast.parse":
                 parsing.append(fi)
@@ -257,6 +262,18 @@ class Facts:
                         self.bind.setdefault(it.optional_vars.id, []).append(("with", it.context_expr))
             elif isinstance(n, ast.NamedExpr) and isinstance(n.target, ast.Name):
                 self.bind.setdefault(n.target.id, []).append(("val", n.value))
+        # entries of a directory written in place (`d / x`, os.path.join(d, x)) get a synthetic variable of their own
+        self.joins: dict[int, str] = {}
+        for n in own_nodes(g.node):
+            if isinstance(n, (ast.BinOp, ast.Call)) and rcs.join_parts(scan, g, n) is not None:
+                par = parent(n)
+                if isinstance(par, (ast.Assign, ast.AnnAssign)) and par.value is n:
+                    continue  # has a name already
+                if isinstance(par, ast.Call) and rcs.join_parts(scan, g, par) is not None and par.args and par.args[0] is n and len(par.args) == 1:
+                    continue  # Path(os.path.join(d, x)): the outer expression is the entry
+                name = f"<entry {norm(n, 30)}@{getattr(n, 'lineno', 0)}:{getattr(n, 'col_offset', 0)}>"
+                self.joins[id(n)] = name
+                self.bind.setdefault(name, []).append(("val", n))
         # alias classes (union-find over names)
         self._up: dict[str, str] = {}
         for v, bs in self.bind.items():
@@ -295,6 +312,34 @@ class Facts:
         if ra != rb:
             self._up[ra] = rb
 
+    def reaching(self, use: ast.Name) -> ast.expr | None:
+        """Value of the one assignment `name = value` that reaches this use of a variable bound several times: the closest earlier
+        statement of an enclosing block that binds the name must be a plain assignment (nothing in between re-binds it)."""
+        name = use.id
+        st = stmt_of(use)
+        while st is not None and st is not self.g.node:
+            par = parent(st)
+            for fld in ("body", "orelse", "finalbody"):
+                blk = getattr(par, fld, None)
+                if isinstance(blk, list) and any(x is st for x in blk):
+                    i = next(k for k, x in enumerate(blk) if x is st)
+                    for prev in reversed(blk[:i]):
+                        binds = any(isinstance(n, ast.Name) and n.id == name and isinstance(n.ctx, (ast.Store, ast.Del)) for n in ast.walk(prev))
+                        if not binds:
+                            continue
+                        if isinstance(prev, ast.Assign) and len(prev.targets) == 1 and isinstance(prev.targets[0], ast.Name) and prev.targets[0].id == name:
+                            return prev.value
+                        if isinstance(prev, ast.AnnAssign) and isinstance(prev.target, ast.Name) and prev.target.id == name and prev.value is not None:
+                            return prev.value
+                        return None
+                    break
+            if isinstance(par, (ast.For, ast.AsyncFor, ast.While)):
+                # a loop: a binding later in the body reaches the use through the back edge
+                if any(isinstance(n, ast.Name) and n.id == name and isinstance(n.ctx, (ast.Store, ast.Del)) for n in ast.walk(par)):
+                    return None
+            st = par if isinstance(par, ast.stmt) else None
+        return None
+
     def cls_of(self, name: str) -> frozenset:
         r = self._find(name)
         names = {name} | set(self._up) | set(self._up.values())
@@ -304,6 +349,8 @@ class Facts:
         """Name of the variable whose *path value* this expression denotes (through resolve()/absolute()/Path()/str()), else None."""
         if isinstance(e, ast.Name):
             return e.id
+        if id(e) in self.joins:
+            return self.joins[id(e)]
         if isinstance(e, ast.Call):
             f = e.func
             if isinstance(f, ast.Attribute) and f.attr in ALIAS_METHODS and not e.args:
@@ -331,6 +378,10 @@ class Facts:
             bs = self.bind.get(n, [])
             if len(bs) == 1 and bs[0][0] == "for" and self.scan.generator_of(self.g, bs[0][1]) is not None:
                 return "forgen"
+        for n in R:
+            bs = self.bind.get(n, [])
+            if len(bs) == 1 and bs[0][0] == "for" and self.scan.recursive_source(self.g, bs[0][1]) is not None:
+                return "reclist" if bs[0][2] is None else ("walkroot" if bs[0][2] == 0 else "local")
         return "local"
 
     def trace(self, e: ast.expr, seen: frozenset = frozenset()) -> set[str]:
@@ -340,6 +391,12 @@ class Facts:
             if n in seen:
                 return set()
             bs = self.bind.get(n, [])
+            if n not in self.params and len(bs) > 1 and all(b[0] == "val" for b in bs) and parent(e) is not None:
+                v = self.reaching(e)
+                if v is not None and rcs.join_parts(self.scan, self.g, v) is None and not (isinstance(v, ast.Call) and isinstance(v.func, ast.Attribute) and v.func.attr in POPPERS):
+                    got = self.trace(v, seen | {n})
+                    if got:
+                        return got
             if n in self.params or len(bs) != 1:
                 return {n} if (n in self.params or bs) else set()
             b = bs[0]
@@ -347,6 +404,8 @@ class Facts:
                 v = b[1]
                 if isinstance(v, ast.Call) and ((isinstance(v.func, ast.Attribute) and v.func.attr in POPPERS | {"get"}) or (isinstance(v.func, ast.Name) and v.func.id == "next")):
                     return {n}  # an element taken out of a work list is a path of its own
+                if rcs.join_parts(self.scan, self.g, v) is not None:
+                    return {n}  # an entry of a directory (d / x) is a path of its own
                 got = self.trace(v, seen | {n})
                 return got or set()
             if b[0] == "with":
@@ -354,6 +413,8 @@ class Facts:
             if b[0] == "unpack":
                 return self.trace(b[1], seen | {n})
             return {n}
+        if id(e) in self.joins:
+            return {self.joins[id(e)]}
         if isinstance(e, ast.Call):
             out: set[str] = set()
             f = e.func
@@ -430,6 +491,11 @@ class Scan:
         self._ret_cache: dict = {}
         self._reach_cache: dict = {}
         self.derived_gate: list[str] = []
+        self._records: dict | None = None
+        self.rec_bind: dict[str, dict] = {}  # helper fq -> {parameter name: Record} while the helper is evaluated
+        self._rec_seen: list = []
+        self.used_records: dict[str, object] = {}
+        self.prefix_bugs: list[str] = []
 
     def facts(self, g: FuncInfo) -> Facts:
         if g.fq not in self._facts:
@@ -451,6 +517,38 @@ class Scan:
             return []
         cs = [x for x in cs if not x.is_abstract and x.name != "__init__"]
         return cs if how == "repo" and len(cs) == 1 else []
+
+    def records(self) -> dict:
+        if self._records is None:
+            self._records = {}
+            self._records = rcs.collect_records(self)
+        return self._records
+
+    def recursive_source(self, g: FuncInfo, it: ast.expr, depth: int = 0) -> ast.Call | None:
+        """The recursive listing call (rglob / glob('**') / os.walk) an iteration source is made of, through sorted(), [p, *...], locals."""
+        fx = self.facts(g)
+        for n in ast.walk(it):
+            if rcs.is_recursive_listing(self.repo, g, n):
+                return n
+            if isinstance(n, ast.Name) and depth < 3 and n.id not in fx.params:
+                bs = fx.bind.get(n.id, [])
+                if len(bs) == 1 and bs[0][0] == "val":
+                    got = self.recursive_source(g, bs[0][1], depth + 1)
+                    if got is not None:
+                        return got
+        return None
+
+    def anc(self, g: FuncInfo, e: ast.expr, R: frozenset | None):
+        self._rec_seen = []
+        got = rcs.anc_test(self, g, e, R)
+        if got in ("anc", "not-anc"):
+            for r in self._rec_seen:
+                self.used_records[id(r)] = r
+        elif isinstance(got, tuple):
+            msg = f"{g.qualname}: {got[1]}"
+            if msg not in self.prefix_bugs:
+                self.prefix_bugs.append(msg)
+        return got
 
     def generator_of(self, g: FuncInfo, it: ast.expr) -> FuncInfo | None:
         if not isinstance(it, ast.Call):
@@ -500,6 +598,10 @@ class Scan:
             bs = fx.bind.get(e.id, [])
             if e.id not in fx.params and len(bs) == 1 and bs[0][0] == "val" and depth < 8:
                 return self.F(g, bs[0][1], R, env, depth + 1)
+            if e.id not in fx.params and len(bs) > 1 and all(b[0] == "val" for b in bs) and depth < 8 and parent(e) is not None:
+                v = fx.reaching(e)
+                if v is not None:
+                    return self.F(g, v, R, env, depth + 1)
             return self.opaque(g, e)
         if isinstance(e, ast.Compare) and len(e.ops) == 1:
             left, op, right = e.left, e.ops[0], e.comparators[0]
@@ -519,6 +621,12 @@ class Scan:
                         t = self.F(g, a, R, env, depth)
                         return t if (isinstance(op, ast.Eq)) == b.value else f_not(t)
             return self.opaque(g, e, False)
+        if isinstance(e, (ast.Call, ast.BinOp)):
+            t = self.anc(g, e, R)
+            if t == "anc":
+                return ANC
+            if t == "not-anc":
+                return f_not(ANC)
         if isinstance(e, ast.Call):
             f = e.func
             if isinstance(f, ast.Name) and f.id == "bool" and len(e.args) == 1:
@@ -604,7 +712,17 @@ class Scan:
         if any(isinstance(n, (ast.Yield, ast.YieldFrom)) for n in own_nodes(h.node)):
             return None
         Rh = self.bind_args(g, call, h, R)
-        key = (h.fq, Rh)
+        names = list(h.param_names)
+        if h.cls is not None and h.outer is None and not h.is_staticmethod and names and isinstance(call.func, ast.Attribute):
+            names = names[1:]
+        passed = {}
+        for p_, a_ in [*zip(names, call.args), *[(k.arg, k.value) for k in call.keywords if k.arg]]:
+            r_ = rcs.record_of(self, g, a_) if isinstance(a_, (ast.Name, ast.Attribute, ast.Call)) else None
+            if r_ is not None and r_.adds:
+                passed[p_] = r_
+        if passed:
+            self.rec_bind[h.fq] = passed
+        key = (h.fq, Rh, tuple(sorted((k_, id(v_)) for k_, v_ in passed.items())))
         if key in self._ret_cache:
             return self._ret_cache[key]
         self._ret_cache[key] = None
@@ -804,6 +922,10 @@ class Scan:
             outs: list[Formula] = []
             for h, call in self.sites.get(g.fq, []):
                 Ra = self.arg_class(h, call, g, R)
+                if isinstance(Ra, tuple) and Ra[0] == "child":
+                    for t in self.child_total(self.totals(h, call, Ra[1], depth + 1)):
+                        outs.append(f_and([local, t]))
+                    continue
                 if Ra is None:
                     outs.append(local)
                     continue
@@ -835,8 +957,44 @@ class Scan:
                 for t in self.totals(w, y, Rw, depth + 1):
                     outs.append(f_and([loc_y, t]))
             return outs or [local]
+        if k == "local":
+            for n_ in R:
+                bs = fx.bind.get(n_, [])
+                if len(bs) == 1 and bs[0][0] == "val" and n_ not in fx.params:
+                    jp = rcs.join_parts(self, g, bs[0][1])
+                    pn = fx.alias_name(jp[0]) if jp is not None else None
+                    if pn is not None and not (fx.cls_of(pn) & R):
+                        rs = fx.roots(ast.Name(id=pn, ctx=ast.Load()))
+                        Rp = rs[0] if len(rs) == 1 else fx.cls_of(pn)
+                        return [f_and([local, t]) for t in self.child_total(self.totals(g, node, Rp, depth + 1))]
+        if k in ("reclist", "walkroot"):
+            # the first component of an os.walk triple is always a directory
+            return [f_and([local, RECL, f_and([ISDIR, self.walk_invariant(g, R)]) if k == "walkroot" else TRUE])]
         inv = self.worklist_invariant(g, R)
         return [f_and([local, inv])] if inv != TRUE else [local]
+
+    def walk_invariant(self, g: FuncInfo, R: frozenset) -> Formula:
+        """`for root, dirs, files in os.walk(p)` with in-place pruning of `dirs`: os.walk never enters an excluded directory, so no
+        directory above a yielded root is excluded (the start has nothing above it inside the walk)."""
+        fx = self.facts(g)
+        for n in own_nodes(g.node):
+            if isinstance(n, ast.For) and isinstance(n.target, (ast.Tuple, ast.List)) and n.target.elts and isinstance(n.target.elts[0], ast.Name) and n.target.elts[0].id in R and self.recursive_source(g, n.iter) is not None:
+                if rcs.walk_pruned(self, g, n, R):
+                    return f_not(ANC)
+        return TRUE
+
+    def child_total(self, parent_totals: list[Formula]) -> list[Formula]:
+        """What is known about an entry `d / x` of a directory d from what is known about d: it comes out of the same recursive
+        listing, and nothing above it is excluded iff that holds for d and d itself is not excluded."""
+        outs = []
+        for t in parent_totals:
+            parts = []
+            if implies(t, RECL, CONSTRAINTS):
+                parts.append(RECL)
+            if implies(t, f_and([f_not(ANC), f_not(EXCL)]), CONSTRAINTS):
+                parts.append(f_not(ANC))
+            outs.append(f_and(parts))
+        return outs or [TRUE]
 
     def worklist_invariant(self, g: FuncInfo, R: frozenset) -> Formula:
         """What is known about a path taken out of a work list: the disjunction of the guards under which paths are put into it
@@ -905,6 +1063,12 @@ class Scan:
         if g.cls is not None and g.outer is None and not g.is_staticmethod and names and isinstance(call.func, ast.Attribute):
             names = names[1:]
         def cls(a: ast.expr):
+            jp = rcs.join_parts(self, h, a)
+            if jp is not None:
+                pn = fh.alias_name(jp[0])
+                if pn is not None:
+                    rs = fh.roots(ast.Name(id=pn, ctx=ast.Load()))
+                    return ("child", rs[0] if len(rs) == 1 else fh.cls_of(pn))
             an = fh.alias_name(a)
             if an is not None:
                 rs = fh.roots(ast.Name(id=an, ctx=ast.Load()))
@@ -992,7 +1156,7 @@ class Scan:
         return out
 
 
-_CANON = [EXCL, PY, ISDIR, ISFILE]
+_CANON = [EXCL, PY, ISDIR, ISFILE, ANC, RECL]
 from core.cfg import MUTATORS as _MUTATORS  # noqa: E402
 
 
@@ -1032,6 +1196,43 @@ def project(f: Formula) -> Formula:
     return f_or(rows)
 
 
+def _check_records(sc: "Scan", repo: Repo, res: Result, rule: str) -> int:
+    """Records of excluded directories that a pruning test relies on: filled with excluded paths only, and with every excluded
+    directory that is reached."""
+    from core.guards import atoms_of
+
+    n = 0
+    canon = {a[1] for a in _CANON}
+    for r in sc.used_records.values():
+        if not r.adds:
+            continue
+        g0, node0, _v = r.adds[0]
+        key = f"{g0.relpath}::{getattr(g0, 'shown', g0.qualname)}::record of excluded directories `{r.key}`"
+        guards = []
+        entry_facts = []
+        for g, node, var in r.adds:
+            guards.append(sc.guard(g, node, sc.facts(g).cls_of(var)))
+            lp = parent(node)
+            while lp is not None and not isinstance(lp, (ast.For, ast.While)):
+                lp = parent(lp)
+            if lp is not None:
+                entry_facts.append(sc.guard(g, lp, None))  # what holds for the whole loop (about other variables)
+        n += 1
+        shrink = [(g, node) for g in sc.U for node in own_nodes(g.node) if isinstance(node, ast.Call) and isinstance(node.func, ast.Attribute) and node.func.attr in ("clear", "remove", "pop", "discard", "popleft") and norm(node.func.value) == r.key]
+        if shrink or r.other_writes:
+            res.undecide(rule, key, f"the record is also modified by `{norm((shrink or r.other_writes)[0][1], 60)}`", where(g0, node0))
+            continue
+        only = all(implies(G, EXCL, CONSTRAINTS) for G in guards)
+        every = implies(f_and([ISDIR, EXCL, f_not(ANC), *entry_facts]), f_or(guards), CONSTRAINTS)
+        if only and every:
+            res.add(rule, key, True, "holds exactly the excluded directories that were reached (parents are listed before their children)", where(g0, node0), kind="dominance")
+        elif any(atoms_of(G) - canon for G in guards):
+            res.undecide(rule, key, "the condition under which a path is recorded contains parts the analysis cannot interpret", where(g0, node0))
+        else:
+            res.add(rule, key, False, ("a path that is not excluded is recorded as excluded: everything below it is dropped" if not only else "not every excluded directory that is reached is recorded: what lies below the others is still scanned"), where(g0, node0), kind="dominance")
+    return n
+
+
 def run(repo: Repo, res: Result, rule: str, anchors: Anchors | None = None) -> int:
     a = anchors or discover(repo)
     if not a.pred_names:
@@ -1045,7 +1246,16 @@ def run(repo: Repo, res: Result, rule: str, anchors: Anchors | None = None) -> i
         g, fx = ev.g, sc.facts(ev.g)
         key = repo.key(g, stmt_of(ev.node)) + f" [{ev.kind}: {norm(ev.node, 50) if isinstance(ev.node, ast.Call) else norm(ev.subject, 50)}]"
         if ev.kind == "recursive":
-            res.undecide(rule, key, "a recursive library walk lists sub-directories itself: the exclusion test cannot be shown to precede the descent", where(g, ev.node))
+            # the listing descends by itself: the obligation moves to every path that comes out of it (guard => not ANC, below)
+            loops = [n for n in own_nodes(g.node) if isinstance(n, (ast.For, ast.comprehension)) and sc.recursive_source(g, n.iter) is not None]
+            if not loops:
+                res.undecide(rule, key, "the result of this recursive listing is not iterated by a loop the analysis can follow: no verdict on whether paths below an excluded directory are skipped", where(g, ev.node))
+            elif any(rcs.reversed_order(lp.iter) for lp in loops):
+                res.undecide(rule, key, "the recursive listing is iterated in reversed order: children may come before their (excluded) parent, pruning by a record of excluded directories cannot be relied on", where(g, ev.node))
+            else:
+                kinds["descend"] = kinds.get("descend", 0) + 1
+                n += 1
+                res.add(rule, key, True, "recursive listing (descends by itself): every path taken from it must be guarded by `no excluded directory above it` - checked at each register / read / parse event", where(g, ev.node), nontrivial=False, kind="dominance")
             continue
         roots = fx.roots(ev.subject)
         if not roots:
@@ -1059,6 +1269,7 @@ def run(repo: Repo, res: Result, rule: str, anchors: Anchors | None = None) -> i
         routed = None
         for R in roots:
             sc.derived_gate = []
+            sc.prefix_bugs = []
             for total in sc.totals(g, ev.node, R):
                 if not satisfiable(total, CONSTRAINTS):
                     continue
@@ -1072,6 +1283,18 @@ def run(repo: Repo, res: Result, rule: str, anchors: Anchors | None = None) -> i
                     gate = f"; the exclusion test is applied to something else than the path itself ({'; '.join(sorted(set(sc.derived_gate))[:2])})" if sc.derived_gate else ""
                     why = f"{ev.what} although no exclusion test on `{'/'.join(sorted(R))}` rejected it first{gate}: " + ("the children of an excluded directory are still scanned" if ev.kind == "descend" else "an excluded directory is registered as a module" if is_dir_event else "an excluded file still contributes a module / imports")
                     break
+                # paths out of a recursive listing: nothing above them may be excluded
+                if implies(total, RECL, CONSTRAINTS) and not implies(total, f_not(ANC), CONSTRAINTS):
+                    hidden = sc.routed_verdict(total)
+                    if hidden and not sc.prefix_bugs:
+                        routed = hidden
+                        continue
+                    ok = False
+                    if sc.prefix_bugs:
+                        why = f"{ev.what} for a path taken from a recursive listing; the only pruning below excluded directories is a raw string-prefix test ({'; '.join(sc.prefix_bugs[:2])}): excluding the directory `gen` also drops its siblings `gen_utils.py`, `genius.py`, `general/` - whole path components must be compared (`d in p.parents`, `p.is_relative_to(d)`, `startswith(str(d) + os.sep)`)"
+                    else:
+                        why = f"{ev.what} for a path taken from a recursive listing although nothing shows that no directory above `{'/'.join(sorted(R))}` is excluded: everything below an excluded directory still contributes"
+                    break
                 # file events: whenever the path is a file, it must be a python source
                 if ev.kind != "descend" and not implies(f_and([total, ISFILE]), PY, CONSTRAINTS) and not implies(total, ISDIR, CONSTRAINTS):
                     ok = False
@@ -1083,6 +1306,7 @@ def run(repo: Repo, res: Result, rule: str, anchors: Anchors | None = None) -> i
             res.undecide(rule, key, f"the verdict of the exclusion test reaches this point through `{routed}`, which the analysis cannot follow: no verdict on whether it guards the {ev.kind}", where(g, ev.node))
             continue
         res.add(rule, key, ok, (f"{ev.what} only after the exclusion test on its own path" + ("" if ev.kind == "descend" else " (and, for files, the '.py' test)")) if ok else why, where(g, ev.node), kind="dominance")
+    n += _check_records(sc, repo, res, rule)
     res.extra.setdefault("c08_scan", {"entry": a.entry.fq, "filter_class": a.filter_cls.fq if a.filter_cls else None, "predicate": sorted(a.pred_names), "events": kinds, "functions": [f.qualname for f in a.universe]})
     for k in ("descend", "read", "parse", "register"):
         if not kinds.get(k):
